@@ -51,7 +51,8 @@ class Region:
         self.steps = 0
         self.max_steps = max_steps
         self.nframe = 0
-        self.zero_regions = set()      # objects whose unset fields read as 0 (e.g. an option block with every option off)
+        self.zero_regions = set()
+        self.discover = None           # list: when set, locals read before being written are recorded (alloca id) and read as 0      # objects whose unset fields read as 0 (e.g. an option block with every option off)
 
     # ---- memory helpers for the rules
     def local(self, f, name):
@@ -63,6 +64,9 @@ class Region:
     def set_local(self, f, name, v, off=0):
         p = self.local(f, name)
         self.mem[(p.reg, off)] = v
+
+    def local_by_id(self, f, aid):
+        return P_(('alloca', f.name, 0, aid), 0)
 
     def get_local(self, f, name, off=0):
         p = self.local(f, name)
@@ -137,6 +141,9 @@ class Region:
                     if ln is not None and not (0 <= p.off < ln):
                         raise OutOfBounds('%s: read of %s at byte offset %d outside its %d bytes (%s)' % (f.name, p.reg[1], p.off, ln, ins.loc()))
                     if (p.reg, p.off) not in self.mem and p.reg in self.zero_regions:
+                        self.mem[(p.reg, p.off)] = 0
+                    if (p.reg, p.off) not in self.mem and self.discover is not None and p.reg[0] == 'alloca':
+                        self.discover.append((p.reg[3], p.off, ins.ty))
                         self.mem[(p.reg, p.off)] = 0
                     if (p.reg, p.off) not in self.mem:
                         raise Unsupported('%s: read of unset memory %r at %s' % (f.name, p, ins.loc()))
